@@ -52,7 +52,7 @@ theorem assoc_bitmap_unpack (L : Lawful eq hashf) (f d : Nat) (bm : UInt32) (es 
       assoc_empty f (d + 1) (by omega)]
     simp [hge, hun]
   · constructor
-    · refine WF.array hd5 hl ?_ ?_ ?_
+    · refine WF.array hd5 hl ?_ (by omega) ?_ ?_
       · have hiso : ∀ c, c < ch'.length →
             (ch'[c]?.bind id).isSome = hasBit (bm ||| bitU (chunkN d (hashf k))) c := by
           intro c hcl
